@@ -1610,6 +1610,11 @@ func replayC12(c *lib.Ctx) error {
 		ro := lib.ObserveSeg(ls.GetRaw(in.RefURL), ref)
 		initURL := in.URL[:strings.LastIndex(in.URL, "/")] + fmt.Sprintf("/init.mp4?nowMS=%d", in.NowMS)
 		ri := ls.GetRaw(initURL)
+		if ri.Status != 200 {
+			fmt.Printf("replay C12: %s -> %d\n", initURL, ri.Status)
+			c.Fail("replay", "init-not-served", fmt.Sprintf("%s -> %d", initURL, ri.Status), in)
+			return nil
+		}
 		f, err := mp4.DecodeFile(bytes.NewReader(ri.Body))
 		if err != nil || f.Init == nil {
 			return fmt.Errorf("%s: %v", initURL, err)
@@ -1693,7 +1698,17 @@ func replayC12(c *lib.Ctx) error {
 		o := parseSubSegment(ls.GetRaw(in.URL), in.Wvtt, f.Init.Moov.Mvex.Trex)
 		fmt.Printf("replay C12: %s -> %d nr=%d tfdt=%d dur=%d cues=%s samples=%d (reference %s: nr=%d tfdt=%d dur=%d /%d)\n", in.URL, o.Status, o.Nr, o.Time, o.Dur, fmtGot(o.Cues), len(o.Samples), in.RefURL, ro.Seq, ro.Tfdt, ro.Dur, ref.Timescale)
 		checkSegment(c, "replay", in, ro, ref.Timescale, o)
-	case "mpd", "config", "init":
+	case "init":
+		ls, err := lib.NewLivesim(lib.TestVodRoot, nil)
+		if err != nil {
+			return err
+		}
+		resp := ls.GetRaw(kind.URL)
+		fmt.Printf("replay C12: %s -> %d %s (%d bytes)\n", kind.URL, resp.Status, resp.Panic, len(resp.Body))
+		if resp.Status != 200 {
+			c.Fail("replay", "init-not-served", fmt.Sprintf("%s -> %d", kind.URL, resp.Status), kind)
+		}
+	case "mpd", "config":
 		ls, err := lib.NewLivesim(lib.TestVodRoot, nil)
 		if err != nil {
 			return err
